@@ -1,6 +1,6 @@
 (* GenEncoding.v - GENERATED from /repo by /verif/translator; do not edit.
    source cssutils/util.py sha1 8753da62da0f
-   source cssutils/css/cssimportrule.py sha1 3f712878ad5b
+   source cssutils/css/cssimportrule.py sha1 c019a65731be
 *)
 From Coq Require Import List NArith ZArith Bool.
 From CssV Require Import Base.Regex Base.Tokens.
@@ -63,7 +63,7 @@ Definition readurl_ladder (overrideEncoding httpEncoding : option enc) (content_
 Definition readurl_decoded (content_is_str decodes : bool) : bool :=
   if content_is_str then true else decodes.
 
-(* cssutils/css/cssimportrule.py:273 _setHref, enctype -> (encodingOverride, encoding) *)
+(* cssutils/css/cssimportrule.py:274 _setHref, enctype -> (encodingOverride, encoding) *)
 Definition sethref_handover (usedEncoding : option enc) (enctype : N) : option enc * option enc :=
   let '(encodingOverride, encoding) := ((None, None) : option enc * option enc) in
   if (enctype =? 0) then
